@@ -33,7 +33,7 @@ func init() {
 		Rule: common + "Oracle per transition: the output delta of a text token contains its marker iff no ancestor on the input stack is a disallowed skip-content element or script/style (ancestors that are in the skip set but allowed are don't-care); markup fed inside such a region produces no output (apart from the spaces of AddSpaceWhenStrippingTag); outside it a text token yields exactly its escaped form once. " +
 			"non-trivial = transitions taken inside a skipped region.",
 		Assumptions: []string{"if the overlay cannot locate the token loop the search falls back to plain enumeration of W-documents up to 6 tokens and reports exhaustive:false"},
-		QuickBudget:  50, ThoroughBudget: 800,
+		QuickBudget: 50, ThoroughBudget: 800,
 		Run:    func(c *run.Ctx) { runE2(c, "C08") },
 		Replay: func(raw json.RawMessage) (bool, string) { return replayE2(raw, "C08") },
 	})
@@ -43,7 +43,7 @@ func init() {
 		Rule: common + "Oracle: the stack-balance monitor over the re-tokenised output never sees a stray or mismatched end tag, and in every state with an empty input stack (a complete well-nested document) no output element is left open. " +
 			"non-trivial = transitions that close an input element.",
 		Assumptions: []string{"void elements follow the HTML list; self-closing tokens are leaves", "if the overlay cannot locate the token loop the search falls back to plain enumeration of W-documents up to 6 tokens and reports exhaustive:false"},
-		QuickBudget:  50, ThoroughBudget: 800,
+		QuickBudget: 50, ThoroughBudget: 800,
 		Run:    func(c *run.Ctx) { runE2(c, "C09") },
 		Replay: func(raw json.RawMessage) (bool, string) { return replayE2(raw, "C09") },
 	})
